@@ -15,7 +15,7 @@ EVERY environment, EVERY `Trie::open` (a total function `bytes → Option D`) an
   (`builtin_needed`: necessary) and the user-side loader returns (`userFileStd_total`: true of `Model/Loader.lean`'s
   `load`, C12 `start_total`); `newContext_std_no_panic` = both plugged in.  No class of path arguments is excluded: the
   model follows the repaired code; `newContextOrig_panics_notUtf8` / `loadUserOrig_panics_empty_path` are the witnesses
-  of the defects repaired by bebca64 / d1f9b2e.
+  of the defects repaired by 8bbf0a3 / 37fe7c3.
 * `newContext_null_iff` — NULL exactly when a path argument is not UTF-8 or the user dictionary cannot be loaded;
   `loadUser_none_iff` spells the latter out.
 * `sys_dicts_of_created`, `corrupt_system_pair_falls_back`, `loadSys_error_iff` — a missing / corrupt `word.dat` +
@@ -265,13 +265,13 @@ theorem parseSymbols_wf (b : List Nat) (y : SymSel) (h : parseSymbols b = some y
     have := hw.2 name i hm
     exact Nat.lt_of_le_of_lt (Nat.mod_le _ _) this
 
-/-- before fix 3c31d6b: a blank line became a leaf category without a name (choosing it ran `chars().next().unwrap()` on
+/-- before fix 0301be3: a blank line became a leaf category without a name (choosing it ran `chars().next().unwrap()` on
     the empty string — `SymWF.leaf` is exactly what C01's `symSelect_ok` needs) -/
 theorem symbols_orig_blank_line_not_wf : ¬ C01.SymWF ((symbolLineOrig {} []).toSel) := by
   intro h
   exact h.leaf [] (by simp [symbolLineOrig, splitOnce, SymAcc.toSel]) rfl
 
-/-- before fix eba8cec: a `swkb.dat` line without a space, or starting with one, panicked (`nospace`, ` x`) -/
+/-- before fix 90b92ad: a `swkb.dat` line without a space, or starting with one, panicked (`nospace`, ` x`) -/
 theorem abbrev_orig_panics :
     abbrevLineOrig [] [110, 111, 115, 112, 97, 99, 101] = .panic "each line should have at last one separator" ∧
     abbrevLineOrig [] [32, 120] = .panic "abbr.chars().nth(0).unwrap()" ∧
@@ -340,7 +340,7 @@ theorem sysHalf_returns (P : Params D U) (hb : P.builtin.isSome) (fs : FS) (sp :
   cases loadSys P.openTrie fs sp <;> cases loadSymbols fs sp <;> exact ⟨_, rfl⟩
 
 /-- **`chewing_new2` never panics** — for every file system, environment, `Trie::open` and all three kinds of path
-    argument (a C string that is not UTF-8 included: it yields NULL since fix bebca64) -/
+    argument (a C string that is not UTF-8 included: it yields NULL since fix 8bbf0a3) -/
 theorem newContext_no_panic (P : Params D U) (hb : P.builtin.isSome) (hu : UserTotal P.user) (fs : FS)
     (env : SysLoader.Env) (syspath userpath : PathArg) : Returns (newContext P fs env syspath userpath) := by
   unfold newContext
@@ -556,7 +556,7 @@ theorem builtin_needed (P : Params D U) (hb : P.builtin = none) (fs : FS) (env :
   unfold newContext sysHalf
   simp [he, hb]
 
-/-- before fix bebca64: a syspath or userpath that is not UTF-8 (a legal unix path) aborted the host -/
+/-- before fix 8bbf0a3: a syspath or userpath that is not UTF-8 (a legal unix path) aborted the host -/
 theorem newContextOrig_panics_notUtf8 (P : Params D U) (fs : FS) (env : SysLoader.Env) (other : PathArg) :
     newContextOrig P fs env .notUtf8 other = .panic "invalid syspath string" ∧
     (P.builtin.isSome → ∀ q, newContextOrig P fs env (.str q) .notUtf8 = .panic "invalid syspath string") := by
@@ -565,7 +565,7 @@ theorem newContextOrig_panics_notUtf8 (P : Params D U) (fs : FS) (env : SysLoade
   obtain ⟨r, hs⟩ := sysHalf_returns P hb fs q
   simp only [hs]
 
-/-- before fix d1f9b2e: the empty user path aborted the host (`parent().expect("path should contain a filename")`) -/
+/-- before fix 37fe7c3: the empty user path aborted the host (`parent().expect("path should contain a filename")`) -/
 theorem loadUserOrig_panics_empty_path (us : UserSide U) (fs : FS) (env : SysLoader.Env) (h : fs [] = .absent) :
     loadUserOrig us fs env (some []) = .panic "path should contain a filename" ∧
     loadUser us fs env (some []) = .ok none := by
